@@ -283,6 +283,37 @@ def check_wrapper(name, params):
     return None
 
 
+def check_all_wrappers():
+    """Every quantity-valued wrapper draws in the unit it was given, for every
+    declared unit of its quantity (a finite table, enumerated once per run)."""
+    import inspect
+    from pydsol.core import units as U
+    n = 0
+    for cname, cls in sorted(vars(U).items()):
+        if not (inspect.isclass(cls) and issubclass(cls, U.QuantityDist)
+                and cls is not U.QuantityDist and hasattr(cls, "quantity")):
+            continue
+        q = cls.quantity
+        for unit in q._units:
+            s1, s2 = ScriptedStream(11), ScriptedStream(11)
+            w = cls(D.DistUniform(s1, 1.0, 3.0), unit)
+            twin = D.DistUniform(s2, 1.0, 3.0)
+            a = w.draw()
+            b = twin.draw()
+            n += 1
+            exp = q(b, unit)
+            if type(a) is not q or a.unit != unit or float(a) != float(exp):
+                return ("quantity-wrapper", "%s(DistUniform(1,3), %r).draw() returned %r "
+                        "(si %r) for an inner draw of %r; expected %r"
+                        % (cname, unit, a, float(a), b, exp)), n
+        try:
+            cls(D.DistUniform(ScriptedStream(1), 1.0, 3.0), "no-such-unit")
+            return ("quantity-wrapper", "%s accepted the unit 'no-such-unit'" % cname), n
+        except (ValueError, TypeError):
+            pass
+    return None, n
+
+
 def random_params(rng, name):
     def sh():
         return rng.choice([0.1, 0.3, 0.5, 0.9, 1.0, 1.0, 1.5, 2.0, 5.0, 20.0, 100.0,
@@ -383,6 +414,9 @@ def execute(case):
     if case["kind"] == "matrix":
         params = spec["regimes"][case["regime"]]
         finding = check_invalid(name) if case["regime"] == 0 else None
+        if finding is None and case["regime"] == 0 and name == NAMES[0]:
+            finding, nw = check_all_wrappers()
+            cnt["quantity_wrapper_units_checked"] = nw
         if finding is None:
             finding = check_wrapper(name, params)
         for plan in matrix_plans():
